@@ -8,5 +8,5 @@ python3-vt -c "import sys; sys.path.insert(0, 'lib'); import kani_replay; kani_r
 (cd native && cargo build --offline --release --quiet)
 mkdir -p .work evidence replays
 # warm the Kani target directory (dependencies of the harness crate); failures here are not fatal, checks rebuild anyway
-(cd kani && PATH="$PWD/../lib/shim:$PATH" timeout 1200 cargo kani -Z stubbing -Z unstable-options --only-codegen --harness h_layout::layout_q_stable --exact --target-dir ../.work/kani-target >/dev/null 2>&1 || true)
+(cd kani && timeout 1200 cargo kani -Z stubbing -Z unstable-options --only-codegen --harness h_layout::layout_q_stable --exact --target-dir ../.work/kani-target >/dev/null 2>&1 || true)
 echo "setup done"
